@@ -83,7 +83,17 @@ def main():
             if rc != 0:
                 res["error"] = "demo.diff does not apply: " + o[-1000:]
                 return res
+        placed = set()
+        for spec in meta.get("demo_files", []) or []:
+            m3 = re.match(r'^(\S+)\s+\(copy to (\S+?)\)', str(spec))
+            if m3 and os.path.exists(f"{out}/{m3.group(1)}"):
+                dst = m3.group(2).replace(f"/tmp/wt-{name}/", "")
+                os.makedirs(os.path.dirname(f"{wt}/{dst}"), exist_ok=True)
+                shutil.copy(f"{out}/{m3.group(1)}", f"{wt}/{dst}")
+                placed.add(m3.group(1))
         for f in os.listdir(out):
+            if f in placed:
+                continue
             if f.endswith(".rs") and not os.path.exists(f"{wt}/tests/{f}"):
                 shutil.copy(f"{out}/{f}", f"{wt}/tests/{f}")
         rc1, o1 = sh(demo_cmd, cwd=wt, env=env, timeout=3600)
